@@ -1,7 +1,7 @@
 (** C01 — Boolean path operations compute the set algebra of the filled regions.
     Property theorems only. *)
 From Coq Require Import ZArith List Bool.
-From CV Require Import Geom.Winding Bool.Region Bool.Sweep Bool.SweepProofs Bool.Check.
+From CV Require Import Geom.Winding Bool.Region Bool.Sweep Bool.SweepProofs Bool.Check Bool.MergeOrder Bool.MergeOrderProofs.
 Import ListNotations.
 Open Scope Z_scope.
 
@@ -71,3 +71,22 @@ Print Assumptions C01_region_laws.
 Theorem C01_guard_off_boundary : forall p a b g2, 0 < g2 -> far_seg p a b g2 = true -> on_seg p a b = false.
 Proof. exact far_seg_off. Qed.
 Print Assumptions C01_guard_off_boundary.
+
+(** Merging coincident segments IN ANY ORDER (the right endpoints of a bundle are processed in whatever order the event queue
+    yields; the scan form of mergeOverlapping, Bool/MergeOrder.v, run against the Go code next to the pointer form on every
+    check): from ANY column of closed non-vertical segments with freshly computed fields and for ANY sequence of merge calls
+    (any order, repetitions, segments outside any bundle), the specification checker that Corr/C01 applies to Go's own fields
+    accepts the resulting column: every segment that has not been absorbed carries the winding totals of everything below it
+    and is in the result iff the operation's region changes across it. *)
+Theorem C01_merge_any_order_spec : forall segs ks op rule,
+  0 <= op <= 5 -> Forall (fun s => plain s /\ sOverlapped s = false) segs ->
+  col_spec_ok_ov [] (mscan_seq (propagate segs op rule) ks op rule) op rule = true.
+Proof. exact merge_any_order_spec. Qed.
+Print Assumptions C01_merge_any_order_spec.
+
+(** the invariant behind it, which holds at every moment of the sequence *)
+Theorem C01_merge_any_order : forall segs ks op rule,
+  Forall (fun s => plain s /\ sOverlapped s = false) segs ->
+  lchain op rule None (rev (mscan_seq (propagate segs op rule) ks op rule)).
+Proof. exact merge_any_order. Qed.
+Print Assumptions C01_merge_any_order.
